@@ -14,7 +14,9 @@ HELPERS = ["(define (helper-second l) (car (cdr l)))", "(define (helper-div a b)
 
 MACROS = ["(define-syntax check-all (syntax-rules () ((check-all e ...) (begin (if e #t (report-the-failure 'e)) ...))))",
           "(define-syntax call-all (syntax-rules () ((call-all e ...) (list (if (< e 2) e (98765 e)) ...))))",
-          "(define-syntax first-of-all (syntax-rules () ((first-of-all e ...) (list (car e) ...))))"]
+          "(define-syntax first-of-all (syntax-rules () ((first-of-all e ...) (list (car e) ...))))",
+          "(define-syntax kar-of-all (syntax-rules () ((kar-of-all l) (kar-that-nobody-defined l))))",
+          "(define-syntax five-of-all (syntax-rules () ((five-of-all x) (98765 x))))"]
 
 
 def fault_form(rng):
@@ -40,7 +42,11 @@ def fault_form(rng):
                               ({"t": "rawtext", "text": "(check-all (< 1 5) (< 20 5) (< 3 5))"}, "Unbound"),
                               ({"t": "rawtext", "text": "(check-all (< 1 5) (< 2 5) (< 30 5))"}, "Unbound"),
                               ({"t": "rawtext", "text": "(call-all 1 2 3)"}, "NonProcedure"),
-                              ({"t": "rawtext", "text": "(first-of-all (list 1) (list 2) 3)"}, "WrongType")])
+                              ({"t": "rawtext", "text": "(first-of-all (list 1) (list 2) 3)"}, "WrongType"),
+                              # ... and by an identifier or operator the template itself writes, without any ellipsis
+                              ({"t": "rawtext", "text": "(kar-of-all (list 1 2))"}, "Unbound"),
+                              ({"t": "rawtext", "text": "(+ 1 (kar-of-all (list 1 2)))"}, "Unbound"),
+                              ({"t": "rawtext", "text": "(five-of-all 3)"}, "NonProcedure")])
         site = None
     elif kind == "Unbound":
         f, site = S.var(SITE_VAR), SITE_VAR
